@@ -12,6 +12,7 @@ import DropletsVerif.Driver.C08
 import DropletsVerif.Driver.C20
 import DropletsVerif.Driver.C03
 import DropletsVerif.Driver.C13
+import DropletsVerif.Driver.C16
 
 open DV.Drv
 
@@ -29,6 +30,7 @@ def dispatch (line : String) : String :=
   | "c20" :: args => handleC20 args
   | "c03" :: args => handleC03 args
   | "c13" :: args => handleC13 args
+  | "c16" :: args => handleC16 args
   | "c15" :: args => handleC15 args
   | _ => "bad-op"
 
